@@ -14,6 +14,7 @@ from vlib import Violation, coq_nat
 from agilerl.components.data import Transition
 from agilerl.components.replay_buffer import ReplayBuffer
 from agilerl.components.multi_agent_replay_buffer import MultiAgentReplayBuffer
+from agilerl.components.sampler import Sampler
 import agilerl.components.multi_agent_replay_buffer as marb_mod
 
 BAD = 4999  # decoded tag of an internally inconsistent row
@@ -207,7 +208,11 @@ class C09(vlib.Driver):
                         return torch.tensor(_p, dtype=torch.long)
                     torch.randperm = fake
                     try:
-                        s = buf.sample(op[1], return_idx=True)
+                        # every second sample goes through the Sampler front end the training loops use
+                        if oi % 2:
+                            s = Sampler(memory=buf).sample(op[1], return_idx=True)
+                        else:
+                            s = buf.sample(op[1], return_idx=True)
                     finally:
                         torch.randperm = orig
                     rows = decode_rows(kind, s)
@@ -216,6 +221,8 @@ class C09(vlib.Driver):
                 else:
                     buf.clear()
                 rec["len"] = len(buf)
+                rec["is_full"] = bool(buf.is_full)
+                rec["counter"] = int(buf.counter)
                 if oi % every == 0 or oi == len(case["ops"]) - 1:
                     st = buf.storage
                     rec["cols"] = decode_rows(kind, st) if st is not None else {"all": [None] * cap}
@@ -321,7 +328,7 @@ class C09(vlib.Driver):
                         return [pop[i] for i in _idx]
                     marb_mod.random.sample = fake
                     try:
-                        out = buf.sample(len(idx))
+                        out = Sampler(memory=buf).sample(len(idx)) if len(trace) % 2 else buf.sample(len(idx))
                     finally:
                         marb_mod.random.sample = orig
                     smp = []
@@ -411,9 +418,15 @@ class C09(vlib.Driver):
         if case["kind"] == "single":
             cap = case["cap"]
             hist = []
+            total = 0
             for oi, (op, rec) in enumerate(zip(case["ops"], obs["trace"])):
                 if op[0] == "add":
                     hist += rec["tags"]
+                    total += len(rec["tags"])
+                if rec.get("is_full") is not None and rec["is_full"] != (rec["len"] == cap):
+                    out.append(Violation("is-full", "single:is-full", f"op {oi}: is_full={rec['is_full']} with len {rec['len']} of {cap}"))
+                if rec.get("counter") is not None and rec["counter"] != total:
+                    out.append(Violation("counter", "single:counter", f"op {oi}: counter={rec['counter']} but {total} transitions were added"))
                 elif op[0] == "clear":
                     hist = []
                 want = hist[-cap:] if hist else []
